@@ -31,5 +31,5 @@ def run(rep, tier):
         rep.sample({k: e[k] for k in e if k not in ("outs", "key", "scr", "a", "sk_in", "sk_out")})
     log("[C03] %d behaviours, %d rejected, %d with vacuous bound" % (len(events), nb, len(vac)))
     rep.assumptions += ["N = 8; radices 3 and 4; precisions <= 24 bits (native-integer phase arithmetic in TLC)",
-                        "GGLWE / GGSW key-switch and automorphism-key automorphism are reached through C04's GGSW corpus only",
+                        "GGSW key-switch and automorphism-key automorphism are not driven (GGLWE key-switch is, cell by cell)",
                         "noise is checked against the worst-case bound implied by the configured truncation of the Gaussian, not against a variance estimate"]
